@@ -4,6 +4,7 @@ package ice
 // Engine CS fine mode on agent_handlers.go (the three notifier streams).
 
 import (
+	"context"
 	"fmt"
 	"time"
 
@@ -161,6 +162,89 @@ func c11scenario(stream, mode string) zzmc.Scenario {
 	}
 }
 
+// c11agentClose: the closing clause on a whole agent. A slow connection-state handler, state changes made on
+// the loop, and Close / GracefulClose in every timing (also Close called by the handler itself): once
+// GracefulClose has returned no handler is running and none is invoked any more.
+func init() {
+	for _, mode := range []string{"close-vs-graceful", "close-in-handler-vs-graceful", "graceful-vs-graceful"} {
+		csScenarios["agent-"+mode] = func() zzmc.Scenario { return c11agentClose(mode) }
+	}
+}
+
+func c11agentClose(mode string) zzmc.Scenario {
+	return zzmc.Scenario{
+		Name:     "agent-" + mode,
+		Focus:    []string{"agent_handlers.go"},
+		MaxSteps: 4000,
+		Setup: func(s *zzmc.Sched) func(string) (string, string) {
+			a, err := NewAgentWithOptions(WithNet(vNet{}), WithMulticastDNSMode(MulticastDNSModeDisabled), WithNetworkTypes([]NetworkType{NetworkTypeUDP4}),
+				WithCandidateTypes([]CandidateType{CandidateTypeHost}), WithLocalCredentials(vUfragA, vPwdA), WithLoggerFactory(nopFactory{}))
+			if err != nil {
+				panic(err)
+			}
+			fail := ""
+			inHandler, gracefulReturned, atReturn := 0, 0, -1
+			var delivered []ConnectionState
+			_ = a.OnConnectionStateChange(func(cs ConnectionState) {
+				inHandler++
+				if inHandler > 1 {
+					fail += "OVERLAP "
+				}
+				if gracefulReturned > 0 {
+					fail += "INVOKED-AFTER-GRACEFUL-CLOSE-RETURNED "
+				}
+				zzmc.HarnessPoint("handler.body")
+				delivered = append(delivered, cs)
+				if mode == "close-in-handler-vs-graceful" && len(delivered) == 1 {
+					_ = a.Close()
+					zzmc.HarnessPoint("handler.after-close")
+				}
+				inHandler--
+			})
+			s.Go("E", func() {
+				for _, st := range []ConnectionState{ConnectionStateChecking, ConnectionStateConnected} {
+					_ = a.loop.Run(a.loop, func(context.Context) { a.updateConnectionState(st) })
+				}
+			})
+			graceful := func() {
+				if err := a.GracefulClose(); err != nil {
+					fail += "GRACEFULCLOSE-" + err.Error() + " "
+				}
+				gracefulReturned++
+				if atReturn < 0 {
+					atReturn = len(delivered)
+				}
+				if inHandler != 0 {
+					fail += "HANDLER-RUNNING-WHEN-GRACEFUL-CLOSE-RETURNED "
+				}
+			}
+			switch mode {
+			case "close-vs-graceful":
+				s.Go("K1", func() { _ = a.Close() })
+			case "graceful-vs-graceful":
+				s.Go("K1", graceful)
+			}
+			s.Go("K2", graceful)
+
+			return func(dead string) (string, string) {
+				if dead != "" {
+					_ = a.Close()
+				}
+				if atReturn >= 0 && atReturn != len(delivered) {
+					fail += fmt.Sprintf("DELIVERY-AFTER-GRACEFUL-CLOSE-RETURNED(%d then %v) ", atReturn, delivered)
+				}
+				for i := 1; i < len(delivered); i++ {
+					if delivered[i] == delivered[i-1] {
+						fail += fmt.Sprintf("DUPLICATE%v ", delivered)
+					}
+				}
+
+				return fmt.Sprint(delivered, " atReturn=", atReturn), fail
+			}
+		},
+	}
+}
+
 func checkC11(c *runCtx) {
 	c.assume("sequential consistency between scheduling points (every mutex, WaitGroup, channel operation and go statement of agent_handlers.go; handlers contain one more point)",
 		"the task loop is the only enqueuer in the agent, so one enqueuer thread is the faithful driver; a second enqueuer is explored as an extra",
@@ -176,6 +260,9 @@ func checkC11(c *runCtx) {
 		}
 	}
 	csExplore(c, "notifier-state-two-enqueuers", b-1, dl, nil)
+	for _, mode := range []string{"close-vs-graceful", "close-in-handler-vs-graceful", "graceful-vs-graceful"} {
+		csExplore(c, "agent-"+mode, b-1, dl, nil)
+	}
 	// gathering half: one nil candidate per completed cycle, after all of its candidates, each stamped with the
 	// cycle's ufrag; none from a cycle cancelled by Restart (oracles of the gathering model, see c09_test.go)
 	p := newVTPool()
